@@ -113,6 +113,28 @@ impl Build for ArrayLang {
     }
 }
 
+impl Build for Pay {
+    fn build(op: &str, s: &[Slot], b: &[Vec<Slot>], pay: Option<&str>) -> Option<Self> {
+        Some(match op {
+            "at" => Pay::At(s[0]),
+            "neg" => Pay::Neg(aid()),
+            "tag" => Pay::Tag(pay?.parse().ok()?, s[0], aid()),
+            "scope" => Pay::Scope(pay?.parse().ok()?, b1(&b[0])),
+            "" => {
+                let p = pay?;
+                if let Ok(i) = p.parse::<i64>() {
+                    Pay::Lit(i)
+                } else if let Ok(f) = p.parse::<bool>() {
+                    Pay::Flag(f)
+                } else {
+                    Pay::Ch(p.parse::<char>().ok()?)
+                }
+            }
+            _ => return None,
+        })
+    }
+}
+
 impl Build for Arith2 {
     fn build(op: &str, s: &[Slot], _b: &[Vec<Slot>], _pay: Option<&str>) -> Option<Self> {
         Some(match op {
@@ -238,6 +260,7 @@ pub fn gen_pat(sig: &LangSig, cfg: &GenCfg, src: &mut Src, depth: usize, allow_s
             Field::Slot => args.push(Arg::S(src.pick(cfg.alphabet as usize) as Name)),
             Field::PayU32 => args.push(Arg::P(format!("{}", src.pick(1000)))),
             Field::PaySym => args.push(Arg::P(cfg.symbols[src.pick(cfg.symbols.len())].to_string())),
+            Field::PayOther(v) => args.push(Arg::P(v[src.pick(v.len())].to_string())),
             Field::Kid(nb) => {
                 let bs = (0..*nb).map(|_| src.pick(cfg.alphabet as usize) as Name).collect();
                 args.push(Arg::K(bs, gen_pat(sig, cfg, src, depth + 1, allow_subst)));
@@ -256,7 +279,7 @@ pub struct RtCase {
 }
 
 fn rt_langs() -> Vec<LangId> {
-    vec![LangId::Core, LangId::Arith, LangId::Sdql, LangId::ArrayLang, LangId::Arith2]
+    vec![LangId::Core, LangId::Arith, LangId::Sdql, LangId::ArrayLang, LangId::Arith2, LangId::Pay]
 }
 
 fn run_rt(c: &RtCase, obs: &mut Obs) -> Result<(), String> {
@@ -266,6 +289,7 @@ fn run_rt(c: &RtCase, obs: &mut Obs) -> Result<(), String> {
         LangId::Sdql => run_rt_l::<Sdql>(c, obs),
         LangId::ArrayLang => run_rt_l::<ArrayLang>(c, obs),
         LangId::Arith2 => run_rt_l::<Arith2>(c, obs),
+        LangId::Pay => run_rt_l::<Pay>(c, obs),
         _ => Err("language without direct constructors".into()),
     }
 }
@@ -385,6 +409,7 @@ fn mp_strategy() -> BoxedStrategy<MpCase> {
                         Field::Slot => args.push(Arg::S(src.pick(4) as Name)),
                         Field::PayU32 => args.push(Arg::P(format!("{}", src.pick(50)))),
                         Field::PaySym => args.push(Arg::P("sym".into())),
+                        Field::PayOther(v) => args.push(Arg::P(v[src.pick(v.len())].to_string())),
                         Field::Kid(nb) => {
                             let bs = (0..*nb).map(|_| src.pick(4) as Name).collect();
                             let kv = vars[src.pick(vars.len())].to_string();
@@ -572,7 +597,7 @@ pub fn property(tier: Tier) -> Property {
             run: run_rt,
             panic_is_violation: true,
             render: |c: &RtCase| format!("[{:?}] {} {}", c.lang, if c.is_term { "term" } else { "pattern" }, render_pat(&c.pat, &c.naming)),
-            rule: "terms and patterns (pattern variables, nested substitution forms in every position) of 5 languages built with the enum constructors directly (not through from_syntax), numeric / textual / f<n> / odd slot names; print then parse must give an equal value; non-trivial = contains a binder or a substitution form; distinct by rendered value",
+            rule: "terms and patterns (pattern variables, nested substitution forms in every position) of 6 languages (u32, Symbol, i64, bool, char payloads; a payload next to a slot and a bound child) built with the enum constructors directly (not through from_syntax), numeric / textual / f<n> / odd slot names; print then parse must give an equal value; non-trivial = contains a binder or a substitution form; distinct by rendered value",
             case_timeout_s: 60,
             exhaustive: false,
         }),
